@@ -60,6 +60,14 @@ pub fn build_ruleset_with(env: &J, rules: Vec<Rule>) -> Result<Built, String> {
                 _ => b = b.with_symbol(name, from_model(&s[1])?),
             }
         }
+        // both relative sizes: for an even number of symbols the table is padded with names nobody refers to until it is
+        // strictly larger than what the builder already holds (a merge that iterates over the smaller side must still let
+        // the table win), for an odd number it stays the smaller side
+        if ss.len() % 2 == 0 && !table.is_empty() {
+            for k in 0..ss.len() + 2 {
+                table.push((format!("\u{2}pad{k}"), Value::String("pad".into())));
+            }
+        }
         b = b.with_symbols(Symbols::from(table)).map_err(|e| format!("with_symbols: {e}"))?;
         for (n, v) in later {
             b = b.with_symbol(n, v);
